@@ -25,12 +25,15 @@
 EXTENDS Naturals, Sequences, FiniteSets, TLC
 
 Types == {"request", "action", "filter", "buffer", "hmap", "string", "proxies"}
-CONSTANTS MaxCalls, MaxLive, Payloads      \* Payloads: payload classes for buffers ("empty", "one", "large")
+CONSTANTS MaxCalls, MaxLive, Payloads,     \* Payloads: payload classes for buffers ("empty", "one", "large")
+          Focus                            \* entry points explored ({} = all): a focused run goes deeper on a few of them
 
 VARIABLES live,     \* set of [id, ty] owned by the caller
           nextid, ncalls, hist
 vars == <<live, nextid, ncalls, hist>>
 View == <<live, ncalls, IF hist = <<>> THEN "" ELSE hist[Len(hist)].call>>
+\* for focused runs: state + the whole sequence of calls with their arguments (a filter object keeps what it was fed)
+ViewCalls == <<live, ncalls, [k \in 1..Len(hist) |-> <<hist[k].call, hist[k].args>>]>>
 
 Init == live = {} /\ nextid = 1 /\ ncalls = 0 /\ hist = <<>>
 Of(ty) == {o \in live : o.ty = ty}
@@ -38,6 +41,7 @@ Obj(i, ty, k) == [id |-> i, ty |-> ty, k |-> k]
 Can == ncalls < MaxCalls
 Room(ty) == Cardinality(Of(ty)) < MaxLive
 Step(call, args, creates, consumes) ==
+  /\ (Focus = {} \/ call \in Focus)
   /\ live' = (live \ consumes) \cup creates
   /\ nextid' = nextid + Cardinality(creates)
   /\ ncalls' = ncalls + 1
